@@ -124,6 +124,10 @@ def e2_drain(ctx, rep):
             if inner[0] == "discr" and any(st == ("call", (body.path, s.bb), s.ck) for st in subterms(inner)):
                 good = True  # pop()/next() returned None
         rep.check(good, R, "drain-until-empty:" + fn, ctx.where(body, a), "the effect loop ends only when the vector is empty", "the effect loop can end before the vector is empty")
+    # the effect phase is entered for every action (independent of the notify flag)
+    hk = [nk for nk, nn in G.nodes.items() if nn.body.path == body.path and nn.bb == h]
+    if hk and P.recv:
+        rep.check(G.every_path_hits(P.recv, P.recv, set(hk)), R, "effect-phase-on-every-pass", ctx.where(body, h), "every received action reaches the effect hand-over loop", "the effect hand-over loop is skipped on some pass (e.g. when the reducers answered Keep): returned effects are never run")
     # per iteration: exhaustive match, one hand-over per variant
     eff = _effect_adt(ctx)
     variants = [v["name"] for v in eff["variants"]]
